@@ -123,3 +123,8 @@ package receiver
 //@   ensures[C12] [checksum-rule] err == nil && old(rt.Dest) != "" && 0 <= old(f.Mode) && mod(div(old(f.Mode), 4096), 16) == 8 && old(entryExists(rt.DestRoot, f.Name)) && old(modeIsRegular(infoMode(destInfo(rt, f)))) && old(infoSize(destInfo(rt, f)) == f.Length) && old(rt.Opts.AlwaysChecksum) ==> (ghost.int32sWritten > old(ghost.int32sWritten) <==> !old(bytesIdOf(f.Checksum, 0, 16) == rootSum(rt.DestRoot, f.Name)))
 //@   ensures[C12] [ignore-times-is-requested] err == nil && old(rt.Dest) != "" && 0 <= old(f.Mode) && mod(div(old(f.Mode), 4096), 16) == 8 && old(entryExists(rt.DestRoot, f.Name)) && old(modeIsRegular(infoMode(destInfo(rt, f)))) && old(infoSize(destInfo(rt, f)) == f.Length) && !old(rt.Opts.AlwaysChecksum) && old(rt.Opts.IgnoreTimes) ==> ghost.int32sWritten > old(ghost.int32sWritten)
 //@   ensures[C12] [mtime-rule] err == nil && old(rt.Dest) != "" && 0 <= old(f.Mode) && mod(div(old(f.Mode), 4096), 16) == 8 && old(entryExists(rt.DestRoot, f.Name)) && old(modeIsRegular(infoMode(destInfo(rt, f)))) && old(infoSize(destInfo(rt, f)) == f.Length) && !old(rt.Opts.AlwaysChecksum) && !old(rt.Opts.IgnoreTimes) ==> (ghost.int32sWritten > old(ghost.int32sWritten) <==> !old(infoMSec(destInfo(rt, f)) == tsec(f.ModTime)))
+
+// ---------------------------------------------------------------- C11: metadata
+// without -p an existing regular destination file keeps its own permission bits
+//@ func (*receiver.Transfer).recvGenerator
+//@   ensures[C11] [no-perms-keeps-perms] err == nil && old(rt.Dest) != "" && !old(rt.Opts.DryRun) && !old(rt.Opts.PreservePerms) && 0 <= old(f.Mode) && mod(div(old(f.Mode), 4096), 16) == 8 && old(entryExists(rt.DestRoot, f.Name)) && old(modeIsRegular(infoMode(destInfo(rt, f)))) ==> select(ghost.perm, old(fkey(rt, f))) == old(select(ghost.perm, fkey(rt, f)))
